@@ -335,6 +335,32 @@ func (c *Check[C]) Rapid(t *testing.T, n int, gen func(t *rapid.T) C) {
 	col.mu.Unlock()
 }
 
+// NativeFuzz reports whether this process is part of a native fuzzing run (coordinator or worker).
+func NativeFuzz() bool { return os.Getenv("VERIF_NATIVE_FUZZ") != "" }
+
+// Fuzz registers the check as a coverage-guided native fuzz target: the fuzz engine mutates the
+// byte stream the rapid generator draws from (rapid.MakeFuzz), so generation stays structured while
+// coverage feedback steers it. A failing case is written as a replay file by the worker that found
+// it. Outside a native fuzzing run the target is skipped (the quick tier stays seed-deterministic).
+func (c *Check[C]) Fuzz(f *testing.F, gen func(t *rapid.T) C) {
+	if !NativeFuzz() {
+		f.Skip("native fuzzing runs in the thorough tier only")
+	}
+	// one byte per decoded-and-evaluated case, appended to a tally file in the run directory: the
+	// engine's exec count also includes byte strings too short to decode into a case
+	tally, _ := os.OpenFile("evaluated.tally", os.O_APPEND|os.O_CREATE|os.O_WRONLY, 0o644)
+	f.Fuzz(rapid.MakeFuzz(func(rt *rapid.T) {
+		v := gen(rt)
+		if tally != nil {
+			tally.Write([]byte{'.'})
+		}
+		if err := c.Eval(v); err != nil {
+			p := c.Fail(v, err)
+			rt.Fatalf("%s violated (replay %s): %v", c.Name, p, err)
+		}
+	}))
+}
+
 // Survey (development aid, VERIF_SURVEY=1): run n cases without failing and
 // print failure buckets with the smallest example of each.
 func (c *Check[C]) Survey(t *testing.T, n int, gen func(t *rapid.T) C, size func(C) int, bucket func(error) string) {
@@ -498,6 +524,17 @@ func RegisterMaker(check string, f func(arg string) (interface{}, error)) { make
 // Main is called from each check package's TestMain.
 func Main(m *testing.M, property string) {
 	col.Property = property
+	if NativeFuzz() {
+		// fuzz coordinator and workers: known findings still switch their features off, but
+		// nothing is replayed and no evidence is written (the driver records the campaign)
+		loadKnown(property)
+		for _, f := range allKnown {
+			if f.Status != "fixed" && f.Switch != "" {
+				switchOff[f.Switch] = true
+			}
+		}
+		os.Exit(m.Run())
+	}
 	flag.Parse()
 	flag.Set("rapid.nofailfile", "true")
 	seed := uint64(Seed())*1_000_003 + uint64(Shard())*7919 + 1
